@@ -16,10 +16,12 @@ package signer
 //@ modifies tokroot, db, checkedset
 //@ ensures [failclosed] (result0 == core.ResultSucceeded) <==> (result1 != nil)
 //@ iface Service.Multisign(self, ctx, credentials, accountNames, pubKeys, data)
+//@ requires [lens] len(accountNames) <= len(data) && len(pubKeys) <= len(data)
 //@ modifies tokroot, db, checkedset
-//@ ensures [len] len(result0) >= 1 && (len(result1) == 0 || len(result1) == len(result0))
+//@ ensures [len] len(result0) >= 1 && (len(result1) == 0 || len(result1) == len(result0)) && (len(data) > 0 ==> len(result0) == len(data))
 //@ ensures [failclosed] forall i int :: 0 <= i && i < len(result0) ==> ((result0[i] == core.ResultSucceeded) <==> (i < len(result1) && result1[i] != nil))
 //@ iface Service.SignBeaconAttestations(self, ctx, credentials, accountNames, pubKeys, data)
+//@ requires [lens] len(accountNames) <= len(data) && len(pubKeys) <= len(data)
 //@ modifies tokroot, db, checkedset
-//@ ensures [len] len(result0) >= 1 && (len(result1) == 0 || len(result1) == len(result0))
+//@ ensures [len] len(result0) >= 1 && (len(result1) == 0 || len(result1) == len(result0)) && (len(data) > 0 ==> len(result0) == len(data))
 //@ ensures [failclosed] forall i int :: 0 <= i && i < len(result0) ==> ((result0[i] == core.ResultSucceeded) <==> (i < len(result1) && result1[i] != nil))
